@@ -354,6 +354,12 @@ def run_case(case):
                     out.fail('not-monotone', i, '%s: value %d = %r < previous %r' % (desc, i, v, vals[i - 1]), clause='monotone')
                     break
             else:
+                if not (math.isfinite(v) and math.isfinite(lo) and math.isfinite(hi)):
+                    if not math.isfinite(v) and math.isfinite(lo) and math.isfinite(hi):
+                        out.fail('jitter-out-of-bounds', i, '%s: value %d = %r is not a finite number (b=%r, jitter=%r)'
+                                 % (desc, i, v, b, jit), clause='jitter')
+                        break
+                    continue            # the bound itself overflows the float range: nothing to compare with
                 fv = Fraction(v)
                 flo, fhi = Fraction(lo), Fraction(hi)
                 tol = Fraction(1, 10 ** 12) * max(abs(fhi), abs(flo))
